@@ -286,7 +286,7 @@ def _run(ctx, work):
     if r0.invariant != 'Neutral':
         raise Machinery('the weakened rule set was not refuted: %r %s' % (r0.invariant, (r0.error or '')[:300]))
     # (b) real programs
-    jobs = [('tpl', n) for n in TEMPLATES] + [('gen', ctx.seed * 100000 + 40000 + i) for i in range(ctx.pick(24, 400))]
+    jobs = [('tpl', n) for n in TEMPLATES] + [('gen', ctx.seed * 100000 + 40000 + i) for i in range(ctx.pick(24, 120))]
     built = [c for c in par.pmap(_case, jobs, chunk=1) if 'skip' not in c]
     for c in built:
         c['stm'] = rewrite.stm_of(c['units'])
@@ -319,7 +319,7 @@ def _run(ctx, work):
     for c, d in sorted(surfaces.items()):
         ss = list(d.values())
         rng.shuffle(ss)
-        ss = ss[:ctx.pick(40, 400)]
+        ss = ss[:ctx.pick(40, 150)]
         case = built[c - 1]
         levels = (0, 1, 2) if (not ctx.quick() or case['name'] in TEMPLATES) else (c % 3,)
         for O in levels:
